@@ -71,6 +71,8 @@ extern struct sSymbolEntry* AddStructSymbol(char const* pName, LargeWord Value);
 
 extern LargeWord StructParentOffset(void);
 
+extern LargeWord UnnamedStructOffset(void);
+
 extern void ResolveStructReferences(PStructRec pStructRec);
 
 extern void BumpStructLength(PStructRec StructRec, LongInt Length);
